@@ -16,6 +16,8 @@
 #include <phosg/KDTree.hh>
 #include <phosg/Vector.hh>
 
+#include <stdexcept>
+
 #include "trace.hh"
 
 using namespace std;
@@ -29,7 +31,11 @@ typedef Vector4<int64_t> P4;
 struct MV {
   int64_t v;
   MV(int64_t x = 0) : v(x) {}
-  MV(const MV&) = default;
+  // arm = k: the k-th copy construction from now on throws (an insert whose value cannot be copied must leave the tree as it was)
+  static inline int arm = 0;
+  MV(const MV& o) : v(o.v) {
+    if (arm && --arm == 0) throw std::runtime_error("value copy failed");
+  }
   MV& operator=(const MV&) = default;
   MV(MV&& o) noexcept : v(o.v) { o.v = -777; }
   MV& operator=(MV&& o) noexcept {
@@ -113,6 +119,24 @@ static void ev_ins(vt::Trace& tr, T& t, const P& p, int64_t v) {
   vt::J j;
   j.str("e", "ins").raw("p", vec(coords(p))).num("v", v).num("size", (long long)t.size()).raw("items", vecs(items_of(t)));
   tr.emit(j);
+}
+// an insert that fails because the value's copy constructor throws (first copy: the one into the new node)
+template <class T, class P>
+static void ev_insfail(vt::Trace& tr, T& t, const P& p, int64_t v) {
+  if constexpr (std::is_same_v<T, T2m>) {
+    MV val(v);
+    bool threw = false;
+    MV::arm = 1;
+    try {
+      t.insert(R(p), val);
+    } catch (const std::runtime_error&) {
+      threw = true;
+    }
+    MV::arm = 0;
+    vt::J j;
+    j.str("e", "insfail").raw("p", vec(coords(p))).num("v", v).num("threw", threw).num("size", (long long)t.size()).raw("items", vecs(items_of(t)));
+    tr.emit(j);
+  }
 }
 template <class T, class P>
 static bool ev_era(vt::Trace& tr, T& t, const P& p, int64_t v) {
@@ -316,6 +340,7 @@ static void random_history(vt::Trace& tr, vt::Rng& r, int dims, int len) {
     if (c < 40) {
       P p = rp();
       int64_t v = 1 + r.below(nv);
+      if (std::is_same_v<T, T2m> && r.chance(12)) ev_insfail(tr, *t, p, v);
       ev_ins(tr, *t, p, v);
       live.emplace_back(p, v);
       tr.nontrivial("ins");
